@@ -179,7 +179,6 @@ def replay(contract: Any, clause: Any, obligation: Any, max_models: int = 16) ->
             tried += 1
             ns = dict(args)
             try:
-                from .loader import materialize
                 ns["result"] = materialize(fi)(*[args[a] for a in fi.argnames])
             except Exception:
                 continue
